@@ -37,7 +37,7 @@ func (p *propC04) ID() string     { return "C04" }
 func (p *propC04) Engine() string { return "rx" }
 func (p *propC04) Level() string  { return "fault_enumeration" }
 func (p *propC04) Rule() string {
-	return "enumeration of at-rest flip faults: for every pool file (corpus files and model streams that Decode accepts, output of the real Encode; 12- and 14-byte headers, stored header CRC correct or 0) x every start bit such that the burst avoids header byte 0 and bytes 4-7 x every burst length 1..16 x patterns with first and last bit set (quick: 4 per length; thorough: all 2^(L-2) on one file <= 200 B, 8 on the rest, files up to 2100 B), Decode and CheckIntegrity must both reject; plus the header verdict matrix: generated 14-byte headers (random protocol/profile version, stored CRC correct / 0 / one bit off / random) in an otherwise valid file through CheckIntegrity(headerOnly), DecodeHeader, Decode, Header.CheckIntegrity; plus the produced family: model Files (stale header size / CRC fields, 12- and 14-byte headers, both byte orders) through the real Encode - once, twice with the protocol version changed in between, or appended to a non-empty bytes.Buffer - whose output all five integrity APIs must accept. " +
+	return "enumeration of at-rest flip faults: for every pool file (corpus files and model streams that Decode accepts, output of the real Encode; 12- and 14-byte headers, stored header CRC correct or 0) x every start bit such that the burst avoids header byte 0 and bytes 4-7 x every burst length 1..16 x patterns with first and last bit set (quick: 4 per length; thorough: all 2^(L-2) on one file <= 200 B, 4 on the rest, files up to 1200 B), Decode and CheckIntegrity must both reject; plus the header verdict matrix: generated 14-byte headers (random protocol/profile version, stored CRC correct / 0 / one bit off / random) in an otherwise valid file through CheckIntegrity(headerOnly), DecodeHeader, Decode, Header.CheckIntegrity; plus the produced family: model Files (stale header size / CRC fields, 12- and 14-byte headers, both byte orders) through the real Encode - once, twice with the protocol version changed in between, or appended to a non-empty bytes.Buffer - whose output all five integrity APIs must accept. " +
 		"key = (entry point, source kind, structural class of the first flipped bit, burst length); non-trivial when the flipped bits were consumed by the entry point"
 }
 func (p *propC04) Assumptions() []string {
@@ -58,8 +58,8 @@ func (p *propC04) Prepare(seed uint64, tier string) int {
 	maxCorpus, nModel, maxModel := 600, 8, 600
 	p.npat = 4
 	if base == "thorough" {
-		maxCorpus, nModel, maxModel = 2100, 20, 1200
-		p.npat = 8
+		maxCorpus, nModel, maxModel = 1200, 20, 1200
+		p.npat = 4
 	}
 	add := func(name string, med Medium, b []byte) {
 		f := parseFrame(b, 0)
